@@ -72,6 +72,72 @@ func engineSearchInv(ctx *Ctx) {
 		if useShipped {
 			nq = ctx.Pick(40, 300)
 		}
+		// Cached answers across a database replacement, with the cache switched off and on around it: every
+		// entry of a later answer must be an entry of the database searched *then*.
+		if !useShipped && d%2 == 0 && len(cmds) > 0 {
+			hdb := vlib.MustLoad(vlib.StripCaches(cmds))
+			hc := database.NewMonitoredDatabase(hdb)
+			var qs []string
+			for i := 0; i < 6; i++ {
+				qs = append(qs, vlib.GenQuery(r, words, 1+r.Intn(3), []int{0, 2}[r.Intn(2)]))
+			}
+			ho := database.SearchOptions{Limit: 5, UseFuzzy: true, UseNLP: r.Intn(2) == 0, AllPlatforms: true}
+			trace := []string{}
+			script := []int{3, 3, 3, 3, 0, 1, 0, 3, 3, 3, 3} // fill the cache, switch it off, replace the database, switch it on, search again
+			for step := 0; step < 24; step++ {
+				op := r.Intn(5)
+				forceEnable := -1
+				if step < len(script) {
+					op = script[step]
+					if step == 4 {
+						forceEnable = 0
+					} else if step == 6 {
+						forceEnable = 1
+					}
+				}
+				switch op {
+				case 0:
+					en := r.Intn(2) == 0
+					if forceEnable >= 0 {
+						en = forceEnable == 1
+					}
+					hc.EnableCache(en)
+					trace = append(trace, fmt.Sprintf("EnableCache(%v)", en))
+				case 1:
+					repl := vlib.MustLoad(vlib.GenCommands(r, dbSpecFor(r, d+ctx.Shard+step))).Commands
+					if len(repl) == 0 {
+						continue
+					}
+					if r.Intn(2) == 0 {
+						hc.UpdateDatabase(repl)
+					} else {
+						hc.LoadDatabaseWithMonitoring(repl)
+					}
+					trace = append(trace, fmt.Sprintf("UpdateDatabase(%d)", len(repl)))
+				case 2:
+					hc.InvalidateCache()
+					trace = append(trace, "InvalidateCache")
+				default:
+					q := qs[r.Intn(len(qs))]
+					if step < len(script) {
+						q = qs[step%4]
+					}
+					hcs := c01Case{DB: dbName + "/history", N: len(hdb.Commands), Query: q, Opts: vlib.OptsJ(ho), Entry: "SearchWithOptionsAndCache/after:" + strings.Join(tail(trace, 4), ",")}
+					ctx.R.Begin(hcs)
+					ctx.R.Eval(1)
+					ctx.R.Guard("C01", "SearchWithOptionsAndCache", hcs, func() {
+						rs := hc.SearchWithOptionsAndCache(q, ho)
+						hcs.Entry = "SearchWithOptionsAndCache/history"
+						checkList(ctx, "C01", hcs, hdb.Commands, ho.Limit, rs)
+						rs = hc.SearchWithOptionsAndMonitoring(q, ho)
+						hcs.Entry = "SearchWithOptionsAndMonitoring/history"
+						checkList(ctx, "C01", hcs, hdb.Commands, ho.Limit, rs)
+						ctx.R.Path("cached-history-searches", 1)
+					})
+					trace = append(trace, "search")
+				}
+			}
+		}
 		for qi := 0; qi < nq; qi++ {
 			kind := []int{0, 0, 1, 2, 2}[r.Intn(5)]
 			nw := 1 + r.Intn(4)
